@@ -1456,7 +1456,7 @@ def make_spec(pid, profile, n_quick, n_thorough, rule_extra):
         return {'distribution': {'op_kinds': kinds, 'totals': tot, 'histories_per_signature': sigs}}
 
     return {
-        'model_vos': MODEL_VOS, 'table_sections': ['c10'],
+        'model_vos': MODEL_VOS, 'table_sections': ['c10', 'source_shape'],
         'preamble': PREAMBLE, 'run_fn': RUN_FN, 'in_type': IN_TYPE,
         'gen_case': gen, 'impl_run': impl_run,
         'expected': lambda c, o: o['expected'], 'case_term': lambda c, o: o['term'],
